@@ -16,6 +16,18 @@ CHECKS = {
    technique="symbolic execution of the MIR of pest/src/stack.rs (operation selectors and elements as z3 bit-vectors, z3 deciding every branch and every equality with the naive model), plus a one-step inductive check from every representation state within size bounds; every path replayed on the compiled crate",
    text="(a) All histories of N operations (N=6 quick, 8 thorough) from Stack::new(), selectors symbolic over the six operations and elements symbolic u8: after every operation z3 proves contents, len, peek and popped elements equal to the naive copy-per-snapshot model and that no MIR assert (overflow, bounds) can fail. (b) Inductive step: from every representation state (|cache|,|popped|<=4/5, <=3/4 snapshots) satisfying the stated invariant, one arbitrary operation preserves the invariant and commutes with the model under the abstraction function, which extends (a) to histories of any length whose states stay within those sizes. A step counterexample is reported only if its pre-state is reached by a real history and the failure reproduces through the public API.",
    note="Trusted: the MIR dump corresponds to the compiled code; the executor; summaries of Vec operations over a python list (every explored path is replayed natively against pest::Stack<u8> and any disagreement makes the check inconclusive); z3. Element type fixed to u8."),
+ "C03": dict(level="model_checking", design="§5 C03", engine="M+K",
+   technique="symbolic execution of the MIR of ParserState/Position/Stack driven by enumerated combinator trees on fully symbolic UTF-8 input (z3 decides every branch), compared path by path with an executable reading of the documented contracts; Kani harnesses for skip/skip_until/start/end-of-input on the compiled code with and without memchr",
+   text="For each program tree of the family (every leaf operation, wraps, pairs and seeded random trees up to depth 3/4; 400 quick / 3000 thorough) and every valid UTF-8 input of 0..N bytes (N=4/5, all bytes symbolic), every feasible path of the real combinator code is explored; on each path the final position, token queue, stack contents, look-ahead and atomicity state must equal the reference semantics, every failed sequence and every look-ahead must leave (position, tokens, stack) as before, and every path is replayed on the compiled crate. stack_match_peek_slice is additionally run with symbolic i32 indices over their full range.",
+   note="Trusted: MIR dump = compiled code; the executor and its std/memchr summaries (every explored path is re-run natively with the real memchr and any disagreement makes the check inconclusive); the reference semantics in lib/progsym.py; z3; Kani/CBMC for the K harnesses. The program family is enumerated, not symbolic; inputs beyond N bytes are outside the claim."),
+ "C12": dict(level="model_checking", design="§5 C12", engine="M",
+   technique="symbolic execution of the MIR of ParserState + pest::state() with the call limit as a symbolic usize (z3 forks on current >= limit), dual run (no limit / symbolic limit) on the same symbolic input inside one path",
+   text="For each program tree (400/3000) and every valid UTF-8 input of 0..N bytes (N=3/4) the program is executed through the real pest::state() once without a limit and once with a symbolic limit L >= 1; z3 enumerates every feasible (input class, limit class) pair and the limited result must be identical to the unlimited one or be the 'call limit reached' error. One exploration therefore covers every limit value, including those beyond the number of calls needed. Every joint path is replayed natively with a concrete L from the model.",
+   note="Trusted as for C03. pairs::new and Error::new_from_pos are replaced by records of their arguments inside state() (they are exercised by C04/C10); grammars (VM / generated parsers) are covered only as far as they reduce to these combinators."),
+ "C15": dict(level="model_checking", design="§5 C15", engine="M",
+   technique="symbolic execution of the MIR of ParserState + pest::state() with ERROR_DETAIL off and on over the same symbolic input inside one path; z3 decides the joint path conditions",
+   text="For each program tree (400/3000) and every valid UTF-8 input of 0..N bytes (N=3/4) both configurations are executed from the MIR; success, tokens, stack, error position and sorted positives/negatives must agree, the flag-on run must not panic (MIR overflow/bounds asserts included) and ParseAttempts::max_position must be a char boundary inside the input. Every run is replayed natively, where the error is also rendered.",
+   note="Trusted as for C03. Rendering of the help message is only exercised concretely by the native replay of each path (a panic there is reported), not symbolically."),
 }
 
 NOT_APPLICABLE = {
@@ -69,6 +81,6 @@ def main():
     jsonschema.validate(m, json.load(open("/root/.vp/MANIFEST.schema.json")))
     print("MANIFEST.json written:", len(checks), "checks,", len(na), "not_applicable")
 
-HOOK_COMMITS = ["abfe286", "411154d"]
+HOOK_COMMITS = ["abfe286", "411154d", "c80bb74"]
 if __name__ == "__main__":
     main()
